@@ -128,6 +128,7 @@ type World struct {
 	shutdownStep     int
 	shutdownCallStep int
 	tp        *sdktrace.TracerProvider
+	sched     *vs.Sched
 	datas     []any
 }
 
@@ -346,6 +347,7 @@ func newWorld(sc *Scenario) *World {
 // Main is the body of thread 0.
 func (w *World) Main() {
 	sc := w.sc
+	w.sched = vs.Cur()
 	if err := w.build(); err != nil {
 		vs.HarnessFail("scenario %s: build: %v", sc.Name, err)
 	}
@@ -394,6 +396,11 @@ func (w *World) Main() {
 					continue
 				}
 				if c.ReqIdx == len(c.Reqs)-1 && c.Thread.Sends > c.sendsBase {
+					continue
+				}
+				// a caller blocked on the full input channel counts as well: Shutdown
+				// may find producers waiting for room (they are admitted by the drain)
+				if c.ReqIdx == len(c.Reqs)-1 && c.Reqs[c.ReqIdx].Started && vs.Cur().ParkedOnSend(c.Thread) {
 					continue
 				}
 				return false
